@@ -23,6 +23,7 @@ PROGRAMS = {
     "imr_toggle": "ccfb0000ccfb8f00130a",
     "imr_word": "cdfa00000000cdfa008f00130d",          # MVW (FA),0000 ; NOP NOP ; MVW (FA),8F00 ; NOP ; JR start   (the mask is rewritten by a word store that begins one byte below it)
     "imr_mti": "ccfb820000ccfb8300130b",            # MV (FB),82 ; NOP NOP ; MV (FB),83 ; NOP ; JR start   (only the MTI mask bit is toggled; STI stays enabled, keyboard masked)
+    "imr_unmask": "00" * 36 + "79fb01" + "00" * 6 + "1306",   # 36 x NOP ; OR (FB),01 ; NOP sled (loops in itself): MTI is unmasked once, late, and stays unmasked
     "isr_clear": "ccfc00001306",
     "ir": "fe001304",
     "clr_halt": "ccfc00de1306",                    # MV (FC),0 ; HALT ; JR start   (a polled, masked request is acknowledged, then the CPU halts)
@@ -213,7 +214,7 @@ def monitor(impl, cfg, cname, hist, pre, ev, post, mon, vb: VB, bnds) -> Tuple:
         deliverable = (imr_pre & 0x80) and (imr_pre & isr_pre & 0x0F & ~stale) and depth == 0 and pre["power"] == "running"
         if delivered == 0 and deliverable and (imr_post & 0x80) and (imr_post & isr_post & 0x0F & ~stale):
             waiting += 1
-            if waiting > 2:
+            if waiting > WAIT_BOUND:
                 vb.add(sig("unmasked-pending-request-not-taken"), f"{impl} {cname}: IMR={imr_pre:#04x} ISR={isr_pre:#04x} enabled and "
                        f"pending for {waiting} instruction boundaries without delivery, after {hist}", wit)
         elif delivered == 0:
@@ -323,14 +324,22 @@ def explore(impl, h, cfg, cname, depth, max_dev, vb: VB, roots_len: int = 5):
     return len(seen), trans, maxd, sample
 
 
+import os as _os
+WAIT_BOUND = int(_os.environ.get("VERIF_C12_WAIT", "2"))     # boundaries a deliverable request may stay untaken
 LONG_TIMERS = [(True, 5, 7), (True, 7, 3), (True, 11, 4), (True, 9, 0)]
 LONG_PROGS = ["nop", "imr_mti", "imr_mti@kbstale", "imr_mti@kboff", "imr_toggle", "imr_word", "isr_clear", "wait", "halt", "zflag", "clr_halt"]
 
 
 def long_combos(impl, thorough):
     progs = LONG_PROGS if impl == "rust" else [p for p in LONG_PROGS if "@" not in p]
-    return [(p, hn, i, t) for p in progs for hn in ("reti", "clr") for i in ((0x82, 0x83) if p.startswith("imr_mti") else (0x8F, 0x81, 0x82))
-            for t in (LONG_TIMERS if thorough or impl == "rust" else LONG_TIMERS[:2])]
+    out = [(p, hn, i, t) for p in progs for hn in ("reti", "clr") for i in ((0x82, 0x83) if p.startswith("imr_mti") else (0x8F, 0x81, 0x82))
+           for t in (LONG_TIMERS if thorough or impl == "rust" else LONG_TIMERS[:2])]
+    # one expiry of each timer inside the run and none after it: the main timer fires (every phase of the mask-toggling loop,
+    # so also while masked), the sub timer is served a few instructions later, and nothing re-raises the first request
+    out += [(p, "reti", 0x82, (True, 29 + k, 29 + k + d)) for p in progs if p.startswith("imr_mti") for k in range(6) for d in (1, 2, 6)]
+    out += [(p + v, "reti", 0x82, (True, 25 + k, 25 + k + d)) for p in ("imr_unmask",) for v in (("", "@kbstale", "@kboff") if impl == "rust" else ("",))
+            for k in range(3) for d in (1, 2, 4)]
+    return out
 
 
 def _long_shard(args):
@@ -398,7 +407,7 @@ def _shard(args):
 
 
 def combos_for(impl, thorough, seed):
-    progs = [p for p in PROGRAMS if p not in ("xram", "rst", "romw", "wait_scaled", "imr_mti")]      # xram only adds a RAM expansion overlay for C16
+    progs = [p for p in PROGRAMS if p not in ("xram", "rst", "romw", "wait_scaled", "imr_mti", "imr_unmask")]      # xram only adds a RAM expansion overlay for C16
     hands = list(HANDLERS)
     if impl == "rust":
         imrs = IMRS if thorough else [0x00, 0x81, 0x84, 0x88, 0x8F, 0x0F]
@@ -434,7 +443,7 @@ def run(ctx) -> None:
     jobs = [("rust", c, rs_depth, rs_dev) for c in chunks(combos_for("rust", ctx.thorough, ctx.seed), n * 2)]
     jobs += [("python", c, py_depth, py_dev) for c in chunks(combos_for("python", ctx.thorough, ctx.seed), n * 4)]
     res = pmap(_shard, jobs)
-    nlong = 80 if ctx.thorough else 40
+    nlong = 80 if ctx.thorough else 52
     resL = pmap(_long_shard, [(impl, c, nlong) for impl in ("rust", "python") for c in chunks(long_combos(impl, ctx.thorough), n // 2)])
     ctx.coverage["long_runs"] = {"configs": sum(len(long_combos(i, ctx.thorough)) for i in ("rust", "python")), "steps_each": nlong,
                                  "monitored_transitions": sum(r["transitions"] for r in resL)}
